@@ -24,7 +24,10 @@ Record cfg := mkCfg { c_h : hmode; c_d : dmode; c_f : fmode;
                       c_bt : bool;        (* HTTPServer(body_timeout=...) configured *)
                       c_chunk : N;        (* chunk_size (= the stream's read_chunk_size) *)
                       c_maxh : N;         (* max_header_size *)
-                      c_maxbody : N }.    (* max_body_size *)
+                      c_maxbody : N;      (* max_body_size *)
+                      c_cb : bool }.      (* the message delegate calls connection.set_close_callback in
+                                             headers_received (web.RequestHandler does; HTTPServer's adapter for a
+                                             plain callable and bare delegates do not) *)
 
 (* what _read_message learns from one header block (computed by Tornado's own parser) *)
 Inductive framing := BErr | BNone | BFixed (n : N) | BChunked.
@@ -379,7 +382,7 @@ Definition step (s : st) : st :=
       | Some FBad => set_pc PE400 s
       | Some (FOk ka ex fr) =>
           let s := set_cur_fr fr (set_cur_exp ex (set_ndc true (set_dof (negb ka) s))) in
-          let s := set_ccb true (emit (TH (idx s)) s) in   (* headers_received; it calls set_close_callback *)
+          let s := set_ccb (c_cb c) (emit (TH (idx s)) s) in   (* headers_received; it may call set_close_callback *)
           match c_h c with
           | HSync => set_pc PAfterH s
           | HAsync => set_pc PWaitH (set_pend PdHdr s)
